@@ -185,7 +185,7 @@ func checkCodecs(c *core.Ctx, rule string, parts map[string]bool) {
 		raw := sp.Type == "Raw"
 		// ---- ToBytes
 		if has("tobytes") {
-			paths, _ := an.EnumPaths(tb, 32)
+			paths, _ := an.EnumPathsX(tb, 128) // helpers of the formatter (a shared text() of ToBytes and String) are spliced in
 			var bad []string
 			seen := map[string]bool{}
 			for _, p := range paths {
